@@ -194,6 +194,58 @@ theorem firstViolation_first {s : Snapshot} {c : Clause} {d : List String}
   | none => rfl
   | some d' => simp [hd] at this
 
+/-- The full report lists exactly the violated clauses, each with its check's detail. -/
+theorem mem_allViolations_iff (s : Snapshot) (c : Clause) (d : List String) :
+    (c, d) ∈ allViolations s ↔ check c s = some d := by
+  unfold allViolations
+  rw [List.mem_filterMap]
+  constructor
+  · rintro ⟨c', _, h⟩
+    cases hc : check c' s with
+    | none => simp [hc] at h
+    | some d' =>
+      simp [hc] at h
+      obtain ⟨rfl, rfl⟩ := h
+      exact hc
+  · intro h
+    exact ⟨c, c.mem_all, by simp [h]⟩
+
+theorem allViolations_clause_iff (s : Snapshot) (c : Clause) :
+    (∃ d, (c, d) ∈ allViolations s) ↔ ¬ c.Holds s := by
+  rw [← check_none_iff]
+  constructor
+  · rintro ⟨d, h⟩ hn
+    rw [mem_allViolations_iff] at h
+    simp [hn] at h
+  · intro h
+    cases hc : check c s with
+    | none => exact absurd hc h
+    | some d => exact ⟨d, (mem_allViolations_iff s c d).mpr hc⟩
+
+/-- The full report is empty exactly on well-formed snapshots, and its head is the first violation. -/
+theorem allViolations_nil_iff (s : Snapshot) : allViolations s = [] ↔ WellFormed s := by
+  rw [wellFormed_iff_all]
+  constructor
+  · intro h c
+    apply Classical.byContradiction
+    intro hn
+    obtain ⟨d, hd⟩ := (allViolations_clause_iff s c).mpr hn
+    rw [h] at hd; simp at hd
+  · intro h
+    apply List.eq_nil_iff_forall_not_mem.mpr
+    rintro ⟨c, d⟩ hm
+    exact (allViolations_clause_iff s c).mp ⟨d, hm⟩ (h c)
+
+theorem allViolations_head (s : Snapshot) : (allViolations s).head? = firstViolation s := by
+  unfold allViolations firstViolation
+  generalize Clause.all = l
+  induction l with
+  | nil => rfl
+  | cons a l ih =>
+    cases h : check a s with
+    | none => simp [h, ih]
+    | some d => simp [h]
+
 /-! ### Readable consequences of `WellFormed` -/
 
 private theorem pairwise_of_nodup_flatMap {α : Type} (f : α → List String) :
